@@ -511,6 +511,31 @@ func genExp14(rng *rand.Rand) (*experimentsv1beta1.Experiment, []string) {
 	if rng.Intn(5) < 3 {
 		e := cleanExp14(rng)
 		tags = append(tags, "clean-base")
+		if rng.Intn(8) == 0 {
+			// a NAS experiment: no spec.parameters, the algorithm's assignments are `architecture` and `nn_config`
+			e.Spec.Parameters = nil
+			e.Spec.NasConfig = &experimentsv1beta1.NasConfig{}
+			pseudo := []experimentsv1beta1.ParameterSpec{{Name: "architecture"}, {Name: "nn_config"}}
+			dup := rng.Intn(3) == 0
+			if dup {
+				pseudo = append(pseudo, experimentsv1beta1.ParameterSpec{Name: "arch2"})
+			}
+			for tries := 0; tries < 20; tries++ {
+				e.Spec.TrialTemplate = genTemplate14(rng, pseudo)
+				if len(e.Spec.TrialTemplate.TrialParameters) >= len(pseudo) {
+					break
+				}
+			}
+			for i := range e.Spec.TrialTemplate.TrialParameters {
+				if e.Spec.TrialTemplate.TrialParameters[i].Name == "arch2" {
+					// a second trial parameter consuming the same assignment
+					e.Spec.TrialTemplate.TrialParameters[i].Reference = "architecture"
+					tags = append(tags, "nas-assignment-consumed-twice")
+				}
+			}
+			tags = append(tags, "nas")
+			return e, tags
+		}
 		for i := rng.Intn(3); i > 0; i-- {
 			if p := nilOut(rng, &e.Spec); p != "" {
 				tags = append(tags, "mutated")
@@ -802,6 +827,10 @@ func init() {
 					if t.TrialSpec != nil {
 						orig = t.TrialSpec
 					}
+					if s.NasConfig != nil && len(s.Parameters) == 0 {
+						// what a NAS algorithm service answers with
+						asgs = append(asgs, []commonv1beta1.ParameterAssignment{{Name: "architecture", Value: "1-2-3"}, {Name: "nn_config", Value: "cfg-a"}})
+					}
 					feasible := len(s.Parameters) > 0
 					for _, p := range s.Parameters {
 						if len(p.FeasibleSpace.List) == 0 && (p.FeasibleSpace.Min == "" || p.FeasibleSpace.Max == "") {
@@ -947,7 +976,7 @@ func init() {
 								res = "err:illegalMeta"
 							case strings.Contains(es, "unable to find parameter from ParameterAssignment in TrialParameters"):
 								res = "err:notInTrialParameters"
-							case strings.Contains(es, "unable to find parameter from TrialParameters in ParameterAssignment"):
+							case strings.Contains(es, "parameter from TrialParameters in ParameterAssignment"):
 								res = "err:notInAssignment"
 							case strings.Contains(es, "failed to convert string to unstructured"):
 								res = "err:json"
